@@ -1056,7 +1056,7 @@ def main(run):
         for n, chunk in enumerate(core.chunks(files, per)):
             args.append({'kind': 'real', 'index': n, 'files': chunk, 'byte_budget': run.pick(250000, 400000),
                          'max_bytes': run.pick(90000, 160000)})
-        for n in range(run.pick(12, 40)):
+        for n in range(run.pick(10, 40)):
             args.append({'kind': 'gprog', 'index': n, 'target': 200, 'max_cases': 70})
         for n in range(run.pick(6, 14)):
             args.append({'kind': 'gclass', 'index': n, 'target': 900, 'max_cases': 14, 'multiattr': 30})
